@@ -421,7 +421,10 @@ pub fn run(args: &Args) {
 /// Built-ins over arrays, strings and objects of every size 0..=130 and around the powers of
 /// two up to 1024 (strategy switches at size thresholds), against the reference functions.
 fn size_sweep(rep: &mut Report, args: &Args, ev: &Evaluator, strict: &Opts) {
-    const EXPRS: [&str; 34] = [
+    const EXPRS: [&str; 42] = [
+        // the last / first element of a stable sort with ties (not the same element as max_by / min_by return)
+        "sort_by(recs, &k)[-1].id", "sort_by(recs, &k)[0].id", "sort_by(recs, &k) | [-1].id", "sort_by(recs, &s)[-1].id", "sort(saw)[-1]", "sort(strs)[0]", "sort_by(recs, &k)[-2:][*].id",
+        "reverse(sort_by(recs, &k))[0].id",
         "sort(desc)", "sort(saw)", "sort(strs)", "sort_by(recs, &k)[*].id", "sort_by(recs, &s)[*].id", "sort_by(recs, &id)[-1].id", "max_by(recs, &k).k", "min_by(recs, &k).k",
         "max_by(recs, &id).id", "min_by(recs, &s).s", "reverse(desc)", "reverse(str)", "sum(desc)", "avg(saw)", "max(saw)", "min(desc)", "max(strs)", "min(strs)", "length(desc)",
         "length(str)", "length(obj)", "join('-', strs)", "keys(obj)", "values(obj)", "merge(obj, obj2)", "map(&k, recs)", "map(&[id], recs)[-1]", "contains(desc, `0`)",
